@@ -640,6 +640,35 @@ def long_strings(sizes=(25, 80)):
 OPENERS = [':"', '"', '0c', '[', '{', '(', ':[', ':{', '[;', 'f(', '.comment("', ':', '1e', '1.', '-', ':|', "+/", "a::"]
 
 
+DIRECTIVE_ARGS = ['"END"', 'stop', ':stop', 'foo "END"', ':foo "END"', 'foo"END"', 'm::"END"', 'x1::"END"', 'stop::stop',
+                  '"EN","D"', '3:^"*"', 'f("END")', '{x}("END")', '{m::x}("END")', '[stop]', 'stop;"END"', ';stop',
+                  '"END";stop', '0cE', 'x', 'q', ':q.r', '.e', 'a+b', '-stop', 'stop+1', ':[1;"END";stop]', '[;stop]',
+                  '', '1', '""']
+DIRECTIVE_BODIES = ['', '\nignored\nEND\n1+1', '\nignored\nstop\n1+1', ' never closed', '\nfoo END stop q 1+1', ';a::1']
+
+
+def directive_strings(lines):
+    """parse-time directives (.comment / .module) whose argument is not a plain string literal: a bare
+    or quoted symbol, a symbol token in front of the string, an assignment, an expression -- with the
+    marker present in the rest of the text and absent from it (the text is then rejected) -- plus every
+    single pool edit of every corpus line that contains a directive"""
+    out = []
+    for d in (".comment", ".module"):
+        for a in DIRECTIVE_ARGS:
+            for b in DIRECTIVE_BODIES:
+                out.append(f"{d}({a}){b}")
+    out += ["x1::10;.comment(x1::\"END\")\nEND\nx1", "f::{x};.comment(f(\"END\"))\nEND", "g(.comment(stop))stop"]
+    pool = INSERT_POOL + ["foo", ":foo", "stop", "m::", "foo::", "q "]
+    for l in lines:
+        if ".comment" in l or ".module" in l:
+            toks = tokens(l)
+            idx = [i for i, t in enumerate(toks) if not t.isspace()]
+            for i in idx + [len(toks)]:
+                for tk in pool:
+                    out.append("".join(toks[:i] + [tk] + toks[i:]))
+    return out
+
+
 def opener_strings():
     """every construct opener followed by every character (alone, doubled, after a blank, before a quote)"""
     out = []
@@ -734,12 +763,15 @@ def _cases(ctx):
     for s in opener_strings():
         if fresh(s, None):
             yield ("opener", s, None, True)
+    lines, nfiles = corpus_lines()
+    for s in directive_strings(lines):
+        if fresh(s, None):
+            yield ("directive", s, None, False)
     # the short strings again inside a module (symbols get qualified)
     ex2 = exhaustive(2)
     for s in (rng.sample(ex2, 300) if quick else ex2):
         if fresh(s, "m"):
             yield ("exhaustive-in-module", s, "m", True)
-    lines, nfiles = corpus_lines()
     ctx.extra["corpus_files"] = nfiles
     ctx.extra["corpus_unique_lines"] = len(lines)
     if quick:
@@ -805,7 +837,8 @@ def run(ctx):
                 "again inside a module; token-level edits (delete, insert, swap, truncate) of the unique lines of every "
                 ".kg file of the repository: a seeded sample of single and double edits (quick) / every delete, truncate, "
                 "swap and one seeded insert per position, every pool insert for 500 lines, 100k double edits (thorough); "
-                "every construct opener followed by every character; a fixed set of long generated strings. distinct = distinct (text, module); non-trivial = length >= 2")
+                "every construct opener followed by every character; parse-time directives (.comment/.module) with 31 kinds "
+                "of non-literal argument x 6 continuations and every pool insert into every corpus line holding a directive; a fixed set of long generated strings. distinct = distinct (text, module); non-trivial = length >= 2")
     ctx.assumptions += [
         "Python's recursion limit is not modelled: RecursionError counts as an error after bounded work and is excluded from the model comparison",
         "character classes of the model are ASCII; texts containing a non-ASCII letter/digit/space are checked by the oracles only",
